@@ -39,6 +39,11 @@ public:
     // Set whether the sieve is cleared after the sieve is extended in internal
     // functions
     static void set_clear(bool clear);
+#if defined(SYMENGINE_VERIF)
+    // Verification hook H4: set the segment size directly in bits, so that
+    // the segmented sieve crosses segment boundaries at small limits.
+    static void verif_set_sieve_bits(unsigned bits);
+#endif
 
     class iterator
     {
